@@ -39,15 +39,8 @@ open Ural.Gen.Patterns
 /-- the only exception the model of `safe_urlsplit(…).hostname` produces is the `ValueError`
 that `is_url` catches: `isUrlC` (a `Bool`) loses nothing -/
 theorem isUrlC_total (W : World) (u : Str) :
-    ∃ b, IsUrl.is_url (isUrlEnv W) u linkOpts = .ok b := by
-  refine Ural.Props.C16.isurl_total (isUrlEnv W) ?_ u linkOpts
-  intro s e he
-  have he' : safeHostname s = .error e := he
-  unfold safeHostname at he'
-  generalize (if pyMatch PROTOCOL_RE s = true then s else "http://".toList ++ s) = url at he'
-  cases hq : Py.urlsplit url [] with
-  | none => simp only [hq, Except.error.injEq] at he'; exact he'.symm
-  | some r => simp only [hq] at he'; cases he'
+    ∃ b, IsUrl.is_url (isUrlEnv W) u linkOpts = .ok b :=
+  Ural.Props.C16.isurl_total_concrete W u linkOpts
 
 /-! ## `canonicalize_url` preserves `is_url` -/
 
